@@ -7,6 +7,9 @@ batching) and with the other configurations; the parent then compares stop itera
 of the same problem across device counts.
 """
 
+import json
+import os
+
 import numpy as np
 
 from vf import common, gen, refmdp, refsolve
@@ -57,7 +60,56 @@ def gen_cases(seed, tier):
         for d in devs:
             cases.append(dict(kind="gen", spec=spec, problem_id=i, gamma=g, epsilon=eps, devices=d,
                               mbs=[MBS[int(j)] for j in mbs], period=period, unichain=avg))
+    # README construction order (64-bit mode NOT enabled by the harness first): several solvers that differ only in
+    # max_batch_size, built one after the other on the SAME problem instance in one fresh process
+    for sv in ("vi", "pi", "rvi", "per", "sa"):
+        cases.append(dict(kind="readme-twins", solver=sv, devices=1 if sv != "vi" else 2, problem_id=-1))
     return cases
+
+
+_TWINS = r"""
+import sys, os, json
+if os.environ.get("MDPAX_SRC"): sys.path.insert(0, os.environ["MDPAX_SRC"])
+import numpy as np
+from mdpax.problems import Forest
+from mdpax.solvers import ValueIteration, PolicyIteration, RelativeValueIteration, PeriodicValueIteration, SemiAsyncValueIteration
+sv = sys.argv[1]
+C = dict(vi=ValueIteration, pi=PolicyIteration, rvi=RelativeValueIteration, per=PeriodicValueIteration, sa=SemiAsyncValueIteration)[sv]
+kw = dict(verbose=0, epsilon=1e-3)
+if sv != "rvi": kw["gamma"] = 0.9
+if sv == "per": kw["period"] = 2
+p = Forest(S=70, p=0.13)
+out = []
+for mb in (1024, 64, 7) if sv != "sa" else (1024, 1024, 1024):      # semi-async results legitimately depend on the batching
+    s = C(p, max_batch_size=mb, **kw)
+    r = s.solve(40)
+    out.append(dict(mb=mb, it=int(r.info.iteration), dtype=str(np.asarray(r.values).dtype),
+                    values=np.asarray(r.values, dtype=float).tolist(), policy=np.asarray(r.policy).reshape(-1).tolist()))
+print("RESULT " + json.dumps(out))
+"""
+
+
+def _readme_twins(case):
+    import subprocess
+    import sys
+
+    env = dict(os.environ)
+    env["VF_NO_X64"] = "1"
+    p = subprocess.run([sys.executable, "-c", _TWINS, case["solver"]], env=env, capture_output=True, text=True, timeout=900)
+    line = [l for l in p.stdout.splitlines() if l.startswith("RESULT ")]
+    if not line:
+        return dict(status="violation", kind="target-exception", detail=f"{case['solver']}: README-order solvers failed: {p.stderr[-400:]}")
+    out = json.loads(line[0][7:])
+    a = out[0]
+    for b in out[1:]:
+        va, vb = np.asarray(a["values"]), np.asarray(b["values"])
+        if b["it"] != a["it"] or b["dtype"] != a["dtype"] or b["policy"] != a["policy"] or np.abs(va - vb).max() > 1e-12 * (1 + np.abs(va).max()):
+            return dict(status="violation", kind="readme-twins",
+                        detail=f"{case['solver']}: solvers built one after the other on the same Forest instance (README order, one process) that "
+                               f"differ only in max_batch_size ({a['mb']} vs {b['mb']}) disagree: iterations {a['it']} vs {b['it']}, dtypes "
+                               f"{a['dtype']} vs {b['dtype']}, max value difference {np.abs(va - vb).max():.3e}")
+    return dict(status="ok", n_obs=len(out), cls=["readme-twins", f"d{case['devices']}", case["solver"]], layouts=[], devices=case["devices"],
+                problem_id=f"readme-twins-{case['solver']}", summary={})
 
 
 def _mb(tag, S):
@@ -66,6 +118,9 @@ def _mb(tag, S):
 
 def run_case(case):
     from vf import target
+
+    if case.get("kind") == "readme-twins":
+        return _readme_twins(case)
 
     problem, nxt, rew, prob, scale, struct, iface, t = common.build_problem(case)
     P, R = refmdp.tables(nxt, rew, prob)
